@@ -946,7 +946,7 @@ def _hinfo(helper):
     rets = [(s, c) for s, c in walk(body) if s[0] == "return"]
     ret = None
     if rets and not (len(rets) == 1 and stmts and stmts[-1] is rets[0][0]):
-        if any(g[0] != "if" for s, c in rets for g in c):
+        if any(g[0] not in ("if", "try", "catch") for s, c in rets for g in c):
             return None
         stmts = None
     elif rets:
@@ -989,6 +989,12 @@ def _unreturn(stmts, assign, budget=None):
             a = _unreturn(th + ([] if ends(th) else rest), assign, budget)
             b = _unreturn(el + ([] if ends(el) else rest), assign, budget)
             return out + [("if", s[1], ("block", a), ("block", b) if b else None)]
+        if s[0] == "try" and (not rest or (len(rest) == 1 and rest[0][0] == "return")):
+            # `try { ..; return a; } catch (..) { ..; return b; } return c;`: every arm ends by assigning the result -- its own,
+            # or (falling out of the try statement) the one that follows, which cannot throw
+            def arm(b):
+                return ("block", _unreturn((list(b[1]) if b[0] == "block" else [b]) + rest, assign, budget))
+            return out + [("try", arm(s[1]), [(d, arm(b)) for d, b in s[2]])]
         raise CStmtError("return inside a loop")
     return out
 
@@ -1178,14 +1184,14 @@ class Sym:
     """State: scalars {name: C expression over the symbols of the initial state}, arrays {name: name of the array value held},
     concrete {name: number} for the variables branches are decided on.  `run` executes statements in order; an `if` whose
     condition is decided by the concrete values takes that branch; an undecided `if` is followed on both sides (a side that
-    leaves the function / loop is recorded in `side_exits` and dropped; two sides that fall through must agree)."""
+    leaves the function / loop is recorded in `side_exits` and dropped; what two sides that fall through leave differently becomes an unknown value)."""
 
     def __init__(self, scalars=None, arrays=None, concrete=None, stop=None, skip=None):
         self.s = dict(scalars or {})
         self.a = dict(arrays or {})
         self.c = dict(concrete or {})
         self.stop = stop or (lambda st: False)
-        self.skip = skip or (lambda st: False)       # statements stepped over (a loop taken as run to its end by the caller)
+        self.skip = skip or (lambda st, sym: False)  # skip(st, state): statements stepped over (a loop the caller takes as run to its end)
         self.side_exits = []
         self._fresh = 0
 
@@ -1264,6 +1270,8 @@ class Sym:
             if k not in env and re.fullmatch(r"\(*-?\d+(\.\d*)?\)*", v.replace(" ", "")):
                 w = v.replace(" ", "").strip("()")
                 env[k] = int(w) if re.fullmatch(r"-?\d+", w) else float(w)
+            elif k not in env and v.replace(" ", "").strip("()") in ("true", "false"):
+                env[k] = v.replace(" ", "").strip("()") == "true"
         return env
 
     def _assign(self, nm, op, rhs, decl):
@@ -1298,7 +1306,7 @@ class Sym:
         k = st[0]
         if self.stop(st):
             return ("stop", st)
-        if self.skip(st):
+        if self.skip(st, self):
             return None
         if k == "block":
             for s in st[1]:
@@ -1345,9 +1353,15 @@ class Sym:
                 self.side_exits.append((st, rb))
                 self.s, self.a, self.c, self._fresh = a.s, a.a, a.c, max(a._fresh, b._fresh)
                 return None
+            self._fresh = max(a._fresh, b._fresh)
             if a.state() != b.state():
-                raise Unknown(f"the state after `if ({txt(st[1])})` depends on a condition that is not decided")
-            self.s, self.a, self.c, self._fresh = a.s, a.a, a.c, max(a._fresh, b._fresh)
+                # join: what the two sides leave differently is a value nobody knows (it compares equal to nothing)
+                for mine, x, y in ((self.s, a.s, b.s), (self.a, a.a, b.a)):
+                    for k in set(x) | set(y):
+                        mine[k] = x[k] if k in x and k in y and x[k] == y[k] else self.opaque(k)
+                self.c = {k: v for k, v in a.c.items() if k in b.c and b.c[k] == v and type(b.c[k]) is type(v)}
+                return None
+            self.s, self.a, self.c = a.s, a.a, a.c
             return None
         if k == "for":
             cp = copies(st)
